@@ -478,6 +478,20 @@ def dtype_cases(ctx):
         tags = {'route': 'Index(dtype)'}
         if changed:
             tags['finding'] = 'C02-init-dtype-map-mismatch'
+            # recorded kind: accepted; values are NumPy's conversion of the labels, the map holds the labels as given, in order
+            kind_ = 'other'
+            if ix is not None:
+                try:
+                    if (arr_items(ix.values) == cast and len(ix) == len(raw) and ix.positions.tolist() == list(range(len(raw)))
+                            and all(int(ix.loc_to_iloc(r)) == i for i, r in enumerate(raw))):
+                        kind_ = 'values-converted-map-as-given'
+                except Exception:  # noqa
+                    pass
+            elif any(any(a == b for b in raw[:i]) for i, a in enumerate(raw)):
+                # the labels AS GIVEN collide (True == 1): refused even where the converted labels are distinct -- same defect
+                kind_ = 'rejected-duplicate-given-labels:' + obs[len('(Err "'):-2]
+            tags['outcome'] = kind_
+            tags = excuse_only_recorded(tags)
         ctx.count(f'dtype:{kind}->{np.dtype(dt).kind}', 'dtype:changed' if changed else 'dtype:unchanged')
         yield Case('api:construct-dtype', {'cls': cls.__name__, 'labels': repr(raw), 'dtype': np.dtype(dt).str, 'form': form,
                                            'converted': repr(cast), 'probes': repr(probes), 'observed': obs[:400]},
@@ -536,6 +550,18 @@ def auto_cases(ctx):
                 tags = {'route': name}
                 if g != 'ok':
                     tags['finding'] = FINDING_AUTO[g[0]]
+                    # recorded kind: the float alias of a held position is NOT found (KeyError, not contained); every view is right
+                    k = probes[0]
+                    try:
+                        ix.loc_to_iloc(k)
+                        found = True
+                    except KeyError:
+                        found = False
+                    except Exception:  # noqa
+                        found = None
+                    views_ok = arr_items(ix.values) == list(range(n)) and len(ix) == n and ix.positions.tolist() == list(range(n)) and iter_items(iter(ix)) == list(range(n))
+                    tags['outcome'] = 'alias-not-found' if (len(probes) == 1 and found is False and (k in ix) is False and views_ok) else 'other'
+                    tags = excuse_only_recorded(tags)
                 ctx.count(f'auto:n={n}', f'auto:{g if g == "ok" else g[0]}')
                 yield Case('api:auto-index', {'route': name, 'n': n, 'probes': repr(probes), 'observed': obs[:400]},
                            m=f'chk_M_auto {n} {vl(probes)} {obs}', s=f'chk_S_auto {n} {vl(probes)} {obs}',
@@ -684,6 +710,63 @@ def go_probes(rng, labels_end, extra):
     return probes[:6] + extra
 
 
+RECORDED_OUTCOMES = {
+    'C02-auto-float-key': ('alias-not-found', 'partial-extend'),
+    'C02-init-dtype-map-mismatch': ('values-converted-map-as-given', 'rejected-duplicate-given-labels:ErrorInitIndex'),
+    'C02-go-bigint-float-coercion': ('float64-rounded-array', 'static-of-rounded-array', 'static-raises:ErrorInitIndex'),
+    'C02-level-drop-inner-duplicates': ('reader-raises:ValueError', 'deduplicated'),
+    'C02-level-drop-outer-offsets': ('offsets-per-parent', 'reader-raises:ValueError', 'rejected-merged-second-depth:ErrorInitIndex'),
+}
+
+
+def excuse_only_recorded(tags):
+    '''A known-finding tag excuses a failing case only when the INPUT is in the recorded class (decided by the caller from
+    the input) AND the observed outcome is of a RECORDED kind; any other outcome on the same input keeps only the
+    informative key `finding_input_class`, which no known entry matches, so the failure is reported.'''
+    tags = dict(tags)
+    fid = tags.get('finding')
+    if fid is not None and tags.get('outcome') not in RECORDED_OUTCOMES.get(fid, ()):
+        tags['finding_input_class'] = tags.pop('finding')
+    return tags
+
+
+def py_bijection_ok(ix):
+    '''Implementation-side check that an index is a bijection for ITS OWN labels (used only to classify the KIND of outcome
+    a known-finding tag may excuse; verdicts are computed in Coq).'''
+    try:
+        vals = arr_items(ix.values)
+        n = len(ix)
+        if len(vals) != n or iter_items(iter(ix)) != iter_items(vals) or ix.positions.tolist() != list(range(n)):
+            return False
+        return all(int(ix.loc_to_iloc(v)) == i and (v in ix) for i, v in enumerate(vals))
+    except Exception:  # noqa
+        return False
+
+
+def go_finding_outcome(finding, ix, spec_labels, alias_values=(), static=False):
+    '''KIND of outcome observed on a grow-only index in the class of a known finding; the known entry excuses only the
+    recorded kind (known/C02.jsonl `match.outcome`), anything else on the same input is reported.'''
+    try:
+        vals = arr_items(ix.values)
+        if finding == 'C02-go-bigint-float-coercion':
+            # recorded: the labels ARRAY is the float64 rounding of the exact labels; the map still holds the exact labels in order
+            rounded = ix.values.dtype.kind == 'f' and len(vals) == len(spec_labels) and all(float(a) == float(b) for a, b in zip(vals, spec_labels))
+            if static:
+                # a static index taken from such a grow-only index is built from the rounded ARRAY: a consistent index over the rounded labels
+                return 'static-of-rounded-array' if (rounded and py_bijection_ok(ix)) else 'other'
+            exact_map = len(ix) == len(spec_labels) and all(int(ix.loc_to_iloc(v)) == i for i, v in enumerate(spec_labels))
+            return 'float64-rounded-array' if (rounded and exact_map) else 'other'
+        if finding == 'C02-auto-float-key':
+            # recorded: an extend carrying a float alias is refused only after the values before it were appended; the index
+            # stays a bijection, holds every label of the specification and nothing but values of that extend besides
+            extra = [v for v in vals if not any(v == x for x in spec_labels)]
+            ok = py_bijection_ok(ix) and all(any(v == x for v in vals) for x in spec_labels) and all(any(e == a for a in alias_values) for e in extra)
+            return 'partial-extend' if ok else 'other'
+    except Exception:  # noqa
+        return 'other'
+    return 'other'
+
+
 def history_case(ctx, init, ops, stratum, touch_pick=None, all_probes=False):
     '''One history, observed twice: "warm" (a reader is called after the last mutation) and "cold" (loc_to_iloc / `in` are
     the first calls after the last mutation: the regression input of the repaired finding C02-autogo-stale-positions).
@@ -706,8 +789,15 @@ def history_case(ctx, init, ops, stratum, touch_pick=None, all_probes=False):
     obs = reading(obs_lit_cold, ix, probes)
     I, O, P, R = init_lit(init), lit.lst([op_lit(o) for o in ops_w]), vl(probes), lit.lst(outs)
     ctx.count(f'go:init={init[0]}', f'go:len={min(len(ops), 9)}', 'go:auto-at-end' if auto_end else 'go:mapped-at-end')
+    alias_vals = [v for o in ops if o[0] == 'extend' for v in o[1]]
+
+    def with_outcome(tg, index, spec, static=False):
+        tg = dict(tg)
+        if 'finding' in tg:
+            tg['outcome'] = go_finding_outcome(tg['finding'], index, spec, alias_vals, static)
+        return excuse_only_recorded(tg)
     out.append(Case(stratum, {'init': repr(init), 'ops': repr(ops_w), 'probes': repr(probes), 'outcomes': outs, 'observed': obs[:400]},
-                    m=f'chk_M_go {I} {O} {P} {R} {obs}', s=f'chk_S_go {I} {O} {P} {R} {obs}', tags=dict(tags), nontrivial=len(ops) >= 1))
+                    m=f'chk_M_go {I} {O} {P} {R} {obs}', s=f'chk_S_go {I} {O} {P} {R} {obs}', tags=with_outcome(tags, ix, labels_end), nontrivial=len(ops) >= 1))
     # a static index built from the grow-only one BEFORE its last growth step, probed AFTER it: the labels added later
     # must be absent from it (it must not share mutable state with its source)
     muts = [i for i, o in enumerate(ops) if o[0] != 'touch']
@@ -726,8 +816,13 @@ def history_case(ctx, init, ops, stratum, touch_pick=None, all_probes=False):
         tags_s = dict({'init': init[0], 'static': route}, **({'finding': 'C02-auto-float-key'} if alias_p else
                                                            {'finding': 'C02-go-bigint-float-coercion'} if lossy_growth(init, ops[:i]) else {}))
         if isinstance(static, Exception):
+            tg = dict(tags_s)
+            if 'finding' in tg:
+                # recorded kind: the rounded float labels collide, so the static constructor refuses them as non-unique
+                tg['outcome'] = 'static-raises:' + lit.err_class(static)
+                tg = excuse_only_recorded(tg)
             out.append(Case(stratum + '-static', {'init': repr(init), 'ops_before': repr(ops[:i]), 'route': route, 'error': type(static).__name__},
-                            py_fail=f'{route} of a valid grow-only index raised {type(static).__name__}: {str(static)[:100]}', tags=tags_s))
+                            py_fail=f'{route} of a valid grow-only index raised {type(static).__name__}: {str(static)[:100]}', tags=tg))
             static = None
         obs_s = reading(obs_lit, static, probes_p) if static is not None else None
         Op, Rp, Pp = lit.lst([op_lit(o) for o in ops[:i]]), lit.lst(outs_s[:i]), vl(probes_p)
@@ -735,13 +830,13 @@ def history_case(ctx, init, ops, stratum, touch_pick=None, all_probes=False):
             out.append(Case(stratum + '-static', {'init': repr(init), 'ops_before': repr(ops[:i]), 'route': route, 'ops_after': repr(ops_w[i:]),
                                               'probes': repr(probes_p), 'observed': obs_s[:400]},
                         m=f'chk_M_go {I} {Op} {Pp} {Rp} {obs_s}', s=f'chk_S_go {I} {Op} {Pp} {Rp} {obs_s}',
-                        tags=tags_s, nontrivial=True))
+                        tags=with_outcome(tags_s, static, labels_p, static=True), nontrivial=True))
     if ops and ops[-1][0] != 'touch':
         ix, outs = run_history(ctx, init, ops, touch_pick)
         obs = reading(obs_lit_cold, ix, probes)
         O, R = lit.lst([op_lit(o) for o in ops]), lit.lst(outs)
         out.append(Case(stratum + '-cold', {'init': repr(init), 'ops': repr(ops), 'probes': repr(probes), 'outcomes': outs, 'observed': obs[:400]},
-                        m=f'chk_M_go {I} {O} {P} {R} {obs}', s=f'chk_S_go {I} {O} {P} {R} {obs}', tags=dict(tags, cold=True), nontrivial=True))
+                        m=f'chk_M_go {I} {O} {P} {R} {obs}', s=f'chk_S_go {I} {O} {P} {R} {obs}', tags=with_outcome(dict(tags, cold=True), ix, labels_end), nontrivial=True))
     return out
 
 
@@ -1472,6 +1567,43 @@ IH_DERIVE = {
 }
 
 
+def level_drop_outcome(fid, table, exp, ih, reader_error, obs=''):
+    '''KIND of outcome of a level_drop in the class of a known finding (only the recorded kind is excused).'''
+    try:
+        if fid == 'C02-level-drop-inner-duplicates':
+            if reader_error is not None:
+                return 'reader-raises:ValueError' if str(reader_error).startswith('ValueError: Output array is the wrong shape') else 'other'
+            if ih is None:
+                return 'other'
+            rows = [tuple(iter_items(x)) for x in ih]
+            return 'deduplicated' if (rows == list(dict.fromkeys(exp)) and len(ih) == len(rows) and [tuple(r) for r in ih.values.tolist()] == rows) else 'other'
+        if fid == 'C02-level-drop-outer-offsets':
+            if reader_error is not None:
+                return 'reader-raises:ValueError' if str(reader_error).startswith('ValueError: Output array is the wrong shape') else 'other'
+            if ih is None:
+                # recorded: the second-depth labels of ALL groups are concatenated into one new root Index, so a label that
+                # ends one group and starts the next (a valid, contiguous table) is refused as non-unique
+                seconds = []
+                for x in table:
+                    if not seconds or seconds[-1] != (x[0], x[1]):
+                        seconds.append((x[0], x[1]))
+                merged = [b for _, b in seconds]
+                return 'rejected-merged-second-depth:ErrorInitIndex' if (obs == '(Err "ErrorInitIndex")' and len(set(merged)) != len(merged)) else 'other'
+            rows = [tuple(iter_items(x)) for x in ih]
+            if rows != [tuple(x) for x in exp] or len(ih) != len(rows) or [tuple(r) for r in ih.values.tolist()] != rows:
+                return 'other'
+            starts = {}
+            for i, x in enumerate(table):
+                starts.setdefault(x[0], i)
+            # recorded: every label is looked up to its position RELATIVE to the start of its old outermost group
+            want = [i - starts[x[0]] for i, x in enumerate(table)]
+            got = [int(ih.loc_to_iloc(r)) for r in rows]
+            return 'offsets-per-parent' if got == want else 'other'
+    except Exception:  # noqa
+        return 'other'
+    return 'other'
+
+
 def more_hier_cases(ctx):
     '''Routes of index_hierarchy.py that construct or derive a hierarchical index and were not reached by the other strata
     (coverage-guided).  Expected tables are computed from the source table by the harness; S decides accept / reject and
@@ -1492,11 +1624,18 @@ def more_hier_cases(ctx):
 
         def emit(name, fn, expect, how='exact', extra=None, tags=None, probes=None, model=None):
             pr = probes if probes is not None else hier_probes(ctx.rng, expect if expect else table, rows)
+            tags = dict(tags or {})
             try:
                 obs, ih = rhobs_lit(lambda: fn(mk()), pr)
             except ReaderRaised as e:
+                if 'finding' in tags:
+                    tags['outcome'] = level_drop_outcome(tags['finding'], table, expect, None, e)
+                    tags = excuse_only_recorded(tags)
                 return Case('api:hier-more', {'derivation': 'more:' + name, 'source': repr(table), 'expected_table': repr(expect), 'error': str(e)},
-                            py_fail=f'a reader of the derived index raised: {e}', tags=dict({'derivation': 'more:' + name}, **(tags or {})))
+                            py_fail=f'a reader of the derived index raised: {e}', tags=dict({'derivation': 'more:' + name}, **tags))
+            if 'finding' in tags:
+                tags['outcome'] = level_drop_outcome(tags['finding'], table, expect, ih, None, obs)
+                tags = excuse_only_recorded(tags)
             ctx.count(f'hier-more:{name}', 'hier-more:accepted' if ih is not None else 'hier-more:rejected')
             desc = {'derivation': 'more:' + name, 'source': repr(table), 'expected_table': repr(expect), 'observed': obs[:300]}
             desc.update(extra or {})
@@ -1630,10 +1769,12 @@ def more_hier_cases(ctx):
             obs, ih = rhobs_lit(lambda: sf.IndexHierarchy.from_labels(table).level_drop(c), pr)
             yield Case('api:hier-more', {'derivation': f'more:level_drop({c})', 'source': repr(table), 'expected_table': repr(exp), 'observed': obs[:300]},
                        m=f'chk_M_level_drop1 {ll(table)} {ll(pr)} {obs}' if c == 1 else None,
-                       s=f'chk_S_hier {ll(exp)} {ll(pr)} {obs}', tags={'derivation': 'more:level_drop', 'finding': fid})
+                       s=f'chk_S_hier {ll(exp)} {ll(pr)} {obs}',
+                       tags=excuse_only_recorded({'derivation': 'more:level_drop', 'finding': fid, 'outcome': level_drop_outcome(fid, table, exp, ih, None)}))
         except ReaderRaised as e:
             yield Case('api:hier-more', {'derivation': f'more:level_drop({c})', 'source': repr(table), 'error': str(e)},
-                       py_fail=f'a reader of the derived index raised: {e}', tags={'derivation': 'more:level_drop', 'finding': fid})
+                       py_fail=f'a reader of the derived index raised: {e}',
+                       tags=excuse_only_recorded({'derivation': 'more:level_drop', 'finding': fid, 'outcome': level_drop_outcome(fid, table, exp, None, e)}))
     # zero-length and typed-level constructions
     for names in (('x', 'y'), ('x', 'y', 'z')):
         for klass in (sf.IndexHierarchy, sf.IndexHierarchyGO):
